@@ -87,7 +87,18 @@ fn select_max_index<T, Cmp: Fn(&T, &T) -> std::cmp::Ordering>(
         iter: impl Iterator<Item = &'a T>,
         compare: impl Fn(&'a T, &'a T) -> std::cmp::Ordering,
     ) -> usize {
-        let (index, _) = iter.enumerate().max_by(|a, b| compare(a.1, b.1)).unwrap(); // Ok because we checked tensor is not empty.
+        // Keep the first of several equal extremes. `Iterator::max_by` would
+        // return the last one.
+        let (index, _) = iter
+            .enumerate()
+            .reduce(|best, cur| {
+                if compare(cur.1, best.1) == std::cmp::Ordering::Greater {
+                    cur
+                } else {
+                    best
+                }
+            })
+            .unwrap(); // Ok because we checked tensor is not empty.
         index
     }
 
